@@ -4,6 +4,7 @@ import Driver.CodecSuite
 import Driver.DBSuite
 import Driver.HistSuite
 import Driver.DiskSuite
+import Driver.SchedSuite
 
 open Driver in
 def main (args : List String) : IO UInt32 := do
@@ -19,4 +20,5 @@ def main (args : List String) : IO UInt32 := do
   | ["db"] => loop stdin stdout dbStep dbInit; pure 0
   | ["hist"] => loop stdin stdout histStep (); pure 0
   | ["disk"] => loop stdin stdout diskStep dkInit; pure 0
+  | ["sched"] => loop stdin stdout schedStep scInit; pure 0
   | _ => IO.eprintln "usage: driver <suite>"; pure 2
